@@ -99,10 +99,12 @@ def h_setpoint(sym):
         roll, pitch = pool[sym.choice('roll_sel', len(pool))], pool[sym.choice('pitch_sel', len(pool))]
         yaw, = F(sym, 'yaw')
     elif x == 'roll':       # x-mode mixes roll and pitch in Float64: one of them symbolic at a time (pure FP query)
-        roll, = F(sym, 'roll')
+        # |angle| <= 1e6: the mixed value cannot leave the float32 range, which spares the solver the overflow branch (the
+        # overflow refusal in x-mode is decided by send_setpoint[x,values])
+        roll = sym.f64('roll', finite=True, lo=-1.0e6, hi=1.0e6)
         pitch, yaw = 3.25, -7.5
     else:
-        pitch, = F(sym, 'pitch')
+        pitch = sym.f64('pitch', finite=True, lo=-1.0e6, hi=1.0e6)
         roll, yaw = -11.75, 2.5
     cf = mkcf(10)
     cf.commander.set_client_xmode(x != 'off')
@@ -435,8 +437,10 @@ _H = [
     Harness('send_setpoint[x,values]', h_setpoint, quick=dict(xmode='values'), goals=('sent', 'refused'), timeout=(300, 900),
             note='x-mode with roll and pitch solver-chosen from a pool of doubles (zero, ordinary, subnormal-in-float32, near the float32 '
                  'limit so that the mixed value overflows); yaw and thrust symbolic'),
-    Harness('send_setpoint[x,roll]', h_setpoint, quick=dict(xmode='roll'), goals=('sent', 'refused'), timeout=(600, 1800), per_path=400.0),
-    Harness('send_setpoint[x,pitch]', h_setpoint, quick=dict(xmode='pitch'), goals=('sent', 'refused'), timeout=(600, 1800), per_path=400.0),
+    Harness('send_setpoint[x,roll]', h_setpoint, quick=dict(xmode='roll'), goals=('sent', 'refused'), timeout=(600, 1800), per_path=400.0,
+            note='roll symbolic in [-1e6, 1e6], pitch/yaw concrete; refusal comes from the symbolic thrust'),
+    Harness('send_setpoint[x,pitch]', h_setpoint, quick=dict(xmode='pitch'), goals=('sent', 'refused'), timeout=(600, 1800), per_path=400.0,
+            note='pitch symbolic in [-1e6, 1e6], roll/yaw concrete; refusal comes from the symbolic thrust'),
     Harness('notify_setpoint_stop', h_notify_stop, goals=('sent', 'refused')),
     Harness('stop_setpoint', h_stop, goals=('sent',)),
     Harness('velocity_world', h_velocity_world, goals=('sent', 'refused')),
